@@ -266,7 +266,7 @@ func verifyMerkleProof(
 
 	// 3.verify storage proof
 	nodeList = new(light.NodeList)
-	if len(ethProof.StorageProof) != 1 {
+	if len(ethProof.StorageProof) != 1 || ethProof.StorageProof[0] == nil {
 		return fmt.Errorf("verifyMerkleProof, invalid storage proof format")
 	}
 
